@@ -703,6 +703,54 @@ fn registry_faults(report: &mut Report, tier: &str, rng: &mut Rng) {
     }
     report.exhaustive.push(format!("registry base world variant {}: every single fault of 9 kinds on each of {} URLs the build (or a probe) asks for", variant, urls.len()));
   }
+  // a further build on the finished graph (it has roots: no restart, a single refresh of the package
+  // listing instead): a new root asks for a requirement that is, is not, or is only after the
+  // refresh, satisfiable
+  for (vi, (req, stale)) in [
+    ("jsr:@s/a@9", false),
+    ("jsr:@s/nope@1", false),
+    ("jsr:@s/a@9", true),
+    ("jsr:@s/a@~1.1", true),
+    ("jsr:@s/a@^1", false),
+    ("jsr:@s/b@7/sub", true),
+  ]
+  .into_iter()
+  .enumerate()
+  {
+    let mut w = reg_base();
+    if stale {
+      // the cached listing of every package knows its first version only
+      for p in w.pkgs.iter_mut() {
+        p.stale = Some(vec![p.versions[0].version.clone()]);
+      }
+    }
+    w.user.push(UserFile { url: "file:///second.ts".into(), items: vec![Item { form: Form::Namespace, text: req.to_string() }, Item { form: Form::Namespace, text: "jsr:@s/a@1".to_string() }] });
+    let desc = json!({"registry_world": w.describe(), "second_build_root": "file:///second.ts", "label": format!("second-build{}", vi)});
+    report.evaluations += 1;
+    let loader = RegLoader::new(&w);
+    let first = match build_reg(&w, &loader) {
+      Ok(b) => b,
+      Err(f) => {
+        report.fail("oracle", "build-panicked", format!("second-build{}: first build {:?}", vi, f), desc);
+        continue;
+      }
+    };
+    match try_build_reg(&w, &loader, first.graph, vec!["file:///second.ts".to_string()]) {
+      Err(BuildFailure::NonTermination) => report.fail("oracle", "build-does-not-terminate", format!("second-build{}: a further build asking for {} exhausted the loader call budget", vi, req), desc),
+      Err(BuildFailure::Panic(m)) => report.fail("oracle", "build-panicked", format!("second-build{}: {}", vi, m), desc),
+      Ok(b) => {
+        if b.graph.verif_slots().iter().any(|(_, s, _)| s.is_none()) {
+          report.fail("oracle", "pending-entry-left", format!("second-build{}: a pending slot survived the build", vi), desc.clone());
+        }
+        let s = ModuleSpecifier::parse(req).unwrap();
+        let settled = matches!(b.graph.try_get(&s), Err(_)) || b.graph.redirects.contains_key(&s);
+        if !settled {
+          report.fail("oracle", "fault-without-error-entry", format!("second-build{}: {} is neither an error entry nor resolved", vi, req), desc.clone());
+        }
+        report.count(&format!("second-build:{}", if b.graph.redirects.contains_key(&s) { "resolved" } else { "error-entry" }));
+      }
+    }
+  }
   // generated registry worlds with faults
   let n = if tier == "thorough" { 6000 } else { 800 };
   for i in 0..n {
